@@ -114,4 +114,4 @@ def run(ctx):
     fx = ctx.fixture
     fcg = CallGraph(fx)
     als, _ = growth.alloc_sites(fx, fcg, ['Holder::ctl_alloc_lookup'])
-    ctx.check(R1, len(als) >= 1, 'control-fixture', 'the allocation scan misses the fixture\'s allocating lookup: checker broken', kind='undecided')
+    ctx.check(R1, len(als) >= 1, 'control-fixture', 'the allocation scan misses the fixture\'s allocating lookup: checker broken', kind='violation')
